@@ -133,6 +133,7 @@ def write_evidence_file(mod, prop, tier, seed, tot, wall, n_viol, known_seen, nw
     probes_at_zero=[k for k in getattr(mod, 'PROBES', []) if not tot['probes'].get(k)],
     components=mod.COMPONENTS,
     known_findings_seen=sorted(known_seen),
+    known_finding_hits=tot.get('known_hits', {}),
     workers=nw,
     planned_runs=cfg['runs'],
     deadline_hit=bool(tot.get('deadline_hit')),
